@@ -64,6 +64,11 @@ func SortKeys(keyPath string, desc bool) order.SortKeys {
 	if desc {
 		o = order.Desc
 	}
+	if keyPath == "this" {
+		// the value itself is the key (empty path); "-orderby this" on the
+		// command line would instead name a field called "this"
+		return order.SortKeys{order.NewSortKey(o, field.Path{})}
+	}
 	return order.SortKeys{order.NewSortKey(o, field.Dotted(keyPath))}
 }
 
